@@ -191,10 +191,24 @@ def step (st : St) (op : String) (got : String) : StepResult St :=
               | .interest => ("1", "0:", "link-interest")
               | .dataTok t => ("0", s!"1:{t}", "link-data-token")
               | .dataDrop => ("0", "0:", "link-data-badtoken")
-              | .dataHash => ("0", "1:" ++ ((kv got "d").drop 2).toString, "link-data-hash")
+              -- token-less Data: one QueueData per distinct thread among the name-prefix threads (incl. the
+              -- empty prefix); the hashes are not modelled, so count and ids are taken from the implementation
+              -- and checked by the spec below (1 ≤ count ≤ threads, ids distinct and < threads)
+              | .dataHash => ("0", kv got "d", "link-data-hash")
+            let spHash : List SpecFail :=
+              match dl with
+              | .dataHash =>
+                let parts := (kv got "d").splitOn ":"
+                let ids := ((parts.getD 1 "").splitOn "+").filterMap String.toNat?
+                let cnt := (parts.getD 0 "").toNat?.getD 0
+                if bad then []
+                else if cnt == 0 || cnt != ids.length || cnt > st.cfgThreads || ids.any (· ≥ st.cfgThreads) || ids.eraseDups.length != ids.length then
+                  [⟨"dispatch-total", "hash", s!"token-less Data must go to between 1 and {st.cfgThreads} distinct existing threads: {kv got "d"}"⟩]
+                else []
+              | _ => []
             let expected := s!"dec={decS} i={i} d={d} store={storeStats l'.store} cnt={l'.nInInterests}/{l'.nInData}"
             let tags := [tag] ++ (if l'.store.length != st.link.store.length then ["link-store-change"] else [])
-            { st := { st1 with link := l' }, expected := some expected, spec := sp ++ spRej ++ spBound, cov := tags,
+            { st := { st1 with link := l' }, expected := some expected, spec := sp ++ spRej ++ spBound ++ spHash, cov := tags,
               nontrivial := l'.store.length != st.link.store.length || dl != .nothing }
     | _, _ => { st := st, expected := some "skip" }
   | ["st", chunkText] =>
